@@ -203,6 +203,33 @@ def run(rep, tier, kinds=("vjp", "jvp"), adjoint=False, names=None):
                     w = adjoint_witness(name, a, adom)
                     rep.violation(f"E2:adjoint:{name}", f"arg{a}", (f"<g,JVP v> != <VJP g,v> at {w}" if w else f"{cname} not discharged"),
                                   replay=dict(module="contracts.rules_scalar", kind="adjoint", name=name, argnum=a, witness=w), witness=bool(w), solver_output=str(m)[:300])
+                # adjointness also at the explicitly handled kink x = 0 of power (both modes are defined there)
+                if name == "power":
+                    for ci, extra in enumerate(([vs[0] == 0, vs[1] == 0], [vs[0] == 0, vs[1] == 1], [vs[0] == 0, vs[1] > 1])):
+                        verdict, m, backend, secs, zz = rc.identity_obligation(got["vjp"], got["jvp"], extra, check_defined=True)
+                        cname = f"adjoint:{name}:arg{a}:kink{ci}:vjp-factor-equals-jvp-factor"
+                        rep.obligation(cname, verdict == "proved", backend, secs, "E2")
+                        if verdict != "proved":
+                            pt = [0.0, [0.0, 1.0, 2.0][ci]]
+                            try:
+                                lhs, rhs = native_rule("jvp", name, a, pt, 1.0), native_rule("vjp", name, a, pt, 1.0)
+                            except Exception as e:
+                                lhs, rhs = repr(e), None
+                            bad = not (lhs == rhs)
+                            rep.violation(f"E2:adjoint:{name}", f"arg{a}:kink{ci}", f"at x=0, y={pt[1]}: JVP factor {lhs}, VJP factor {rhs}",
+                                          replay=dict(module="contracts.rules_scalar", kind="adjoint", name=name, argnum=a, witness=dict(x=pt, g=1.0, v=1.0)), witness=bad, solver_output=str(m)[:200])
+                for kind in ("vjp", "jvp"):
+                    # the rule must be differentiable as a LINEAR function of g: d rule/d g == rule(1) for every g (incl. g = 0),
+                    # where(c, a, b) differentiated branch-wise exactly as autograd does at the next order
+                    dg = rc.D(got[kind], "g")
+                    rec = rv if kind == "vjp" else rj
+                    one_ = eval_rule(kind, rec, name, a, vs, spec, rc.const(1))
+                    verdict, m, backend, secs, zz = rc.identity_obligation(dg, one_, dom + ([_cond(c, vs) for c in CASES.get(name, [[]])[0]]))
+                    cname = f"linear:{kind}:{name}:arg{a}:derivative-in-g-is-the-factor"
+                    rep.obligation(cname, verdict == "proved", backend, secs, "E2")
+                    if verdict != "proved":
+                        rep.violation(f"E2:linear-d:{kind}:{name}", f"arg{a}", f"{cname}: d/dg of the rule is {dg!r}"[:400] + f" which is not the factor {one_!r}"[:300] +
+                                      " - the next-order derivative through this rule is wrong for such g", witness=False, solver_output=str(m)[:300])
                 for kind in ("vjp", "jvp"):
                     # linear in the (co)tangent: rule(g) = g * rule(1)
                     rec = rv if kind == "vjp" else rj
